@@ -105,7 +105,7 @@ def mutants(pid_filter, seed):
                    'tests_failed': sorted(failed)[:3]}
             if not failed or m.get('force'):
                 rc, out, wall = run_check_on(d, m['pid'], seed=seed)
-                sigs = re.findall(r'^(?:under python -O: )?violation (\S+)', out, re.M)
+                sigs = re.findall(r'^(?:under python -O[^:]*: )?violation (\S+)', out, re.M)
                 rec.update(check_exit=rc, wall_s=round(wall, 1), signature=sigs[:1],
                            killed=(rc == 1 and 'VIOLATION property=' + m['pid'] in out))
                 if rc == 3:
@@ -161,7 +161,7 @@ def seeded(pid_filter, seed):
                 per = {}
                 for sd in seeds:
                     rc, out, wall = run_check_on(d, pid, seed=sd)
-                    sigs = re.findall(r'^(?:under python -O: )?violation (\S+)', out, re.M)
+                    sigs = re.findall(r'^(?:under python -O[^:]*: )?violation (\S+)', out, re.M)
                     per[str(sd)] = (rc == 1 and 'VIOLATION property=' + pid in out)
                     rec.update(check_exit=rc, wall_s=round(wall, 1), signature=sigs[:1])
                     mm = re.search(r'VIOLATION property=\S+ replay=(\S+)', out)
